@@ -576,9 +576,14 @@ def cubic_spline(  # pylint: disable=dangerous-default-value  # always replaced 
         if constraints is not None:
             if centering_constraint:
                 # Now we can compute centering constraints
-                constraints_arr = _get_centering_constraint_from_matrix(
-                    _get_free_cubic_spline_matrix(x, all_knots, cyclic=cyclic)
+                free_matrix = _get_free_cubic_spline_matrix(
+                    x, all_knots, cyclic=cyclic
                 )
+                if extrapolation is SplineExtrapolation.ZERO:
+                    # Out-of-bounds rows are zeroed below, and so must not
+                    # contribute to the column means either.
+                    free_matrix = free_matrix[~(below_lower | above_upper)]
+                constraints_arr = _get_centering_constraint_from_matrix(free_matrix)
             df_before_constraints = all_knots.size
             if cyclic:
                 df_before_constraints -= 1
